@@ -149,6 +149,7 @@ def designator(max_len=20):
         st.tuples(st.just(5), st.just(1), st.fixed_dictionaries({"target_portal_group": fv(16)})),
         st.tuples(st.just(6), st.just(1), st.fixed_dictionaries({"logical_unit_group": fv(16)})),
         st.tuples(st.just(7), st.just(1), st.fixed_dictionaries({"md5_logical_identifier": b(16)})),
+        st.tuples(st.just(9), st.just(1), st.fixed_dictionaries({"pci_express_routing_id": fv(16)})),
     )
 
 
